@@ -92,8 +92,8 @@ PLANS["C14"] = {
 }
 
 PLANS["C16"] = {
-    "quick": [J("damage1", "c=1,s=1", 90), J("damagebulk1", "c=1,f=1", 60), J("damagebulk2", "c=1,f=1", 60)],
-    "thorough": [J("damage1", "c=1,s=2,p=1", 600), J("damage2", "c=1,f=1,s=1", 900), J("damagebulk1", "c=1,f=1,s=1", 300), J("damagebulk2", "c=1,f=1,s=1", 300)],
+    "quick": [J("damage1", "c=1,s=1", 90), J("damagebulk1", "c=1,f=1", 60), J("damagebulk2", "c=1,f=1", 60), J("damagerel", "c=1,s=1", 40)],
+    "thorough": [J("damage1", "c=1,s=2,p=1", 600), J("damage2", "c=1,f=1,s=1", 900), J("damagebulk1", "c=1,f=1,s=1", 300), J("damagebulk2", "c=1,f=1,s=1", 300), J("damagerel", "c=1,s=2,p=1", 300)],
 }
 
 PLANS["C19"] = {
